@@ -22,6 +22,7 @@ partial def parseStmt (j : Json) : R Stmt := do
   | [.str "bind", x, s] => do pure (.bind (← asNat x) (← parseSrc s))
   | [.str "write", x] => do pure (.write (← asNat x))
   | [.str "ret", x] => do pure (.ret (← asNat x))
+  | [.str "kill", xs] => do pure (.kill (← asList asNat xs))
   | [.str "store", x, l, y] => do pure (.store (← asNat x) (← asNat l) (← asNat y))
   | [.str "seq", ss] => do
       let l ← asArr ss
@@ -42,6 +43,29 @@ def handle (op : String) (req : Json) : R Json := do
     pure (jObj [("write", jList jNat (dedupSort (a.report np))),
                 ("ret", jList jNat (dedupSort (a.reportRet np))),
                 ("top", jBool a.top)])
+  | "c19.history" =>
+    -- the per-class obligation: `ana` on `history c ms` (all call histories on one object; theorem `history_write_sound`)
+    let np ← getNat req "np"
+    let c ← fld req "ctor" >>= parseStmt
+    let ms ← fld req "methods" >>= asArr
+    let ms ← ms.mapM parseStmt
+    let a := ana np (history c ms) A.empty
+    pure (jObj [("write", jList jNat (dedupSort (a.report np))), ("top", jBool a.top)])
+  | "c19.two_call" =>
+    -- names the method of a broken history obligation: `ana` on each `c; m` (theorem `twoCall_write_sound`)
+    let np ← getNat req "np"
+    let c ← fld req "ctor" >>= parseStmt
+    let ms ← fld req "methods" >>= asArr
+    let ms ← ms.mapM parseStmt
+    pure (jObj [("two_call", jList (jList jNat) (ms.map (fun m => dedupSort ((ana np (.seq c m) A.empty).report np))))])
+  | "c19.retained" =>
+    -- the parameters the object built by `c` (receiver variable `x`) may retain (theorem `retention_sound`)
+    let np ← getNat req "np"
+    let c ← fld req "ctor" >>= parseStmt
+    let x ← getNat req "x"
+    let t ← getNat req "t"
+    let a := ana np (retProg c x t) A.empty
+    pure (jObj [("retained", jList jNat (dedupSort (a.reportRet np))), ("top", jBool a.top)])
   | _ => throw s!"unknown op {op}"
 
 end PewDriver.C19
